@@ -589,7 +589,7 @@ def _add(bodies, b):
     k = 1
     while name in bodies:
         k += 1
-        name = '%s#%d' % (b.name, k)
+        name = '%s~%d' % (b.name, k)
     b.name = name
     bodies[name] = b
 
